@@ -93,7 +93,7 @@ theorem keepExa_eq (s : List Seg) (k : Nat) : keepExa k s = takeUnits k s := by
 
 /-- The model of ExaBGP's `merge_attributes` (as repaired by 72add9c) IS the RFC 6793 §4.2.3 reference merge. -/
 theorem mergeExa_eq_merge6793 (as2 as4 : List Seg) : mergeExa as2 as4 = merge6793 as2 as4 := by
-  unfold mergeExa merge6793
+  unfold mergeExa merge6793 plainSegs
   rw [countExa_eq, countExa_eq, keepExa_eq]
 
 end Exa.Attr7606
